@@ -22,6 +22,8 @@ def run(tier):
             ("validators on large degrees: two hubs of degree 1..41 and around 64 / 128 / 256, one offending edge (parallel copy in either orientation, self-loop, weight 0) at every position of the edge sequence", ["--mode", "validators-large"]),
             ("reader into other graph types (edge_weight behind an edge_index property; list-based out-edges with vertex and edge properties): L<=2, 4 weight spellings, <=1 comment line",
              ["--mode", "reader", "--lines", 2, "--nweights", 4, "--max-comments", 1, "--graph-type", 1]),
+            ("reader fed through the read end of a pipe (a FILE* that cannot seek or tell): L<=2, 4 weight spellings, <=1 comment line", ["--mode", "reader", "--lines", 2, "--nweights", 4, "--max-comments", 1, "--stream", 1]),
+            ("reader fed from a regular temporary file (seekable): L<=1, full alphabet", ["--mode", "reader", "--lines", 1, "--stream", 2]),
             ("reader into other graph types, second type", ["--mode", "reader", "--lines", 2, "--nweights", 4, "--max-comments", 1, "--graph-type", 2]),
             ("reader, one line stretched to every length 1..1022 (+ newline) / 1..1023 (final line without newline): comment 'c'/'#' at each of 4 positions, zero-padded decimal weight on each of 3 edge lines", ["--mode", "longlines"])]
     if tier == "thorough":
